@@ -42,7 +42,7 @@ def cases(chk):
     yield "lib-decodes-ref", {"tree": to_json(("m", [], None, [big, ("z", [], None, [])])), "seed": 3, "deflate": 0}
     # list headers around every size boundary: integer literals of the current coder sources, +-1 (children count, and the node's own
     # list size 1 + 2*attributes + content)
-    sizes = sorted(set(v + d for v in chk.lits for d in (-1, 0, 1) if 1 <= v + d <= (2000 if chk.quick() else 70000)) | {255, 256, 257})
+    sizes = sorted(set(v + d for v in chk.lits for d in (-1, 0, 1) if 1 <= v + d <= (2000 if chk.quick() else 65535)) | {255, 256, 257})      # (lists of 65,536 and more are outside the format)
     for nk in sizes:
         t = ("list", [], None, [("item", [], None, [])] * nk)
         yield "ref-decodes-lib", {"tree": to_json(t)}
@@ -52,6 +52,11 @@ def cases(chk):
             t = ("n", [("k%d" % i, "v%d" % i) for i in range(na)], b"x" if (nk - 1) % 2 else None, [])
             yield "ref-decodes-lib", {"tree": to_json(t)}
             yield "lib-decodes-ref", {"tree": to_json(t), "seed": r.randrange(1 << 30), "deflate": 0}
+    # compressed frames (zlib flag) around every size boundary: a limit in the inflate path shows only for large inflated bodies
+    for nb in sorted(set([255, 256, 4095, 4096, 65535, 65536, 65537, 70000, (1 << 17) + 1] + ([] if chk.quick() else [(1 << 20) - 1, 1 << 20, (1 << 20) + 1]))):
+        yield "lib-decodes-ref", {"tree": to_json(("m", [("id", "z%d" % nb)], bytes([nb % 251]) * nb, [])), "seed": nb, "deflate": 1}
+        yield "lib-decodes-ref", {"tree": to_json(("m", [("id", "k%d" % nb)], None, [("c", [("i", str(i))], bytes([i % 251 + 1]) * (nb // 40 + 1), []) for i in range(40)])),
+                                  "seed": nb + 1, "deflate": 1}
     n = chk.scale(700, 20000)
     for i in range(n):
         if not chk.time_left():
